@@ -40,6 +40,17 @@ def valid_payload(t, depth=0):
     return False
 
 
+def from_params_only(t, params):
+    """the term is built from the function's own parameters (possibly through KeGroup::public_key) and nothing validated"""
+    if t is None:
+        return False
+    if t in params:
+        return True
+    if t[0] == 'app' and t[1] == 'KeGroup::public_key':
+        return from_params_only(t[2][0], params)
+    return False
+
+
 def construction_sites(g):
     sites = []
     for b in g['bodies']:
@@ -69,7 +80,23 @@ def run(ctx):
         GS = interp.GSuite(g)
         sites = construction_sites(g)
         n_sites = 0
-        for b, kinds in sites:
+        deferred = {}
+        work = list(sites)
+        done_paths = set()
+        while True:
+            if not work:
+                # callers of private helpers that wrap their argument become sites themselves
+                for cp in sorted(set().union(*deferred.values())) if deferred else []:
+                    if cp not in done_paths:
+                        cb = [c for c in g['bodies'] if c['path'] == cp]
+                        if cb:
+                            work.append((cb[0], ['via-helper']))
+                if not work:
+                    break
+            b, kinds = work.pop(0)
+            if b['path'] in done_paths:
+                continue
+            done_paths.add(b['path'])
             body = GS.by_generic['opaque_ke::' + b['path']][0]
             params = [Sym('arg%d' % i) for i in range(1, body['argc'] + 1)]
             I, outs = interp.summarize(GS, body, params, adts=ctx.adts)
@@ -81,10 +108,20 @@ def run(ctx):
                         evs.append(e)
             rep.ob('R11.1', 'construction site in %s is reached by the analysis [%s]' % (b['path'], cfg), bool(evs) and not any(n.startswith('STOP') for n in I.notes),
                    'no construct event on any path (notes %s)' % I.notes, w, None)
+            # a crate-private helper that wraps its *argument* is judged at its call sites (the interpreter inlines it into each caller,
+            # which is analysed as a site of its own below); a public function doing so would be a raw constructor and is judged here
+            private = not str(body.get('vis', 'Public')).startswith('Public')
+            callers = [c for c in g['bodies'] if c is not b and any(
+                (not bb['cleanup']) and bb['term'].get('k') == 'call' and bb['term']['callee'].get('dpath') == b.get('dpath') for bb in c['blocks'])]
             for e in evs:
                 val = e[-1]
                 payload = dict(val[3]).get('0') if (val is not None and val[0] == 'adt') else None
                 good = valid_payload(payload)
+                if not good and private and callers and from_params_only(payload, params):
+                    deferred.setdefault(b['path'], set()).update(c['path'] for c in callers)
+                    rep.ob('R11.1', '%s: private helper wrapping its argument; judged at its %d call site(s) [%s]' % (b['path'], len(callers), cfg), True,
+                           'callers: %s' % sorted(c['path'] for c in callers), w, None)
+                    continue
                 n_sites += int(good)
                 rep.ob('R11.1', '%s: payload of %s comes from a validating source [%s]' % (b['path'], e[1].split('::')[-1], cfg), good,
                        'payload = %s' % show(payload)[:300], w, None, sample='%s(%s)' % (e[1].split('::')[-1], show(payload)[:160]))
